@@ -60,7 +60,7 @@ CHECKS = {
             U('^TestC04_LargeScale$', (3, 200), (2, 6000)),
             U('^TestC04_PaginatedScenarios$', (3, 8000), (4, 200000)),
             U('^TestC04_WideWeights$', (2, 8000), (3, 200000)),
-            U('^TestC04_Decay$', (2, 6000), (3, 150000))],
+            U('^TestC04_Decay$', (2, 6000), (3, 150000)), U('^TestC04_HandBuiltMessages$', (2, 3000), (2, 60000))],
         essential_labels=['kind:dense', 'kind:sparse', 'kind:paginated', 'event:array-shift', 'event:page-created', 'event:buffer-compacted', 'op:merge', 'op:encdec', 'op:proto', 'op:reweight', 'op:copy', 'op:clear', 'large-scale', 'shape:round-robin', 'paginated-method-mergewithproto', 'clear-refill-same-size', 'mutate-many:non-add', 'large-scale-merge-phase', 'first-read-after-mutation', 'paginated-scenario', 'wide-weights', 'weight>=2^53', 'weights-underflowed-to-zero', 'partial-underflow-lost-bins', 'decay:some-bins-vanished'],
         assumptions=COMMON_ASSUMPTIONS + ["weights are dyadic and bounded so that every float64 partial sum is exact (DESIGN §1.1); index spans are capped per store kind by memory"],
     ),
@@ -89,7 +89,7 @@ CHECKS = {
     ),
     'C08': dict(
         level='fault_enumeration',
-        units=[U('^TestC08$', (12, 150), None), U('^TestC08_Thorough$', None, (14, 1500)), U('^TestC08_LongVarfloats$', (3, 400), (2, 20000)), U('^TestC08_FarIndexes$', (2, 600), (2, 30000)), F('FuzzC08', 120)],
+        units=[U('^TestC08$', (12, 150), None), U('^TestC08_Thorough$', None, (14, 1500)), U('^TestC08_LongVarfloats$', (3, 400), (2, 20000)), U('^TestC08_FarIndexes$', (2, 600), (2, 30000)), U('^TestC08_ReceiverWithoutMapping$', (1, 4000), (2, 100000)), F('FuzzC08', 120)],
         essential_labels=['cut-inside-bin-block', 'cut:uvarint/n', 'cut:varint/delta', 'cut:varfloat/count', 'cut-inside:mapping', 'fault:undefined-flag', 'fault:mapping-mismatch', 'fault:mapping-mismatch-offset-only', 'fault:mapping-mismatch-repeated-on-same-receiver', 'fault:mapping-missing', 'varfloat>=8-bytes', 'cut:8-of-9-varfloat-bytes', 'layout:1', 'layout:2', 'layout:3', 'producer:exact-variant', 'far-indexes', 'integer-field>=5-bytes'],
         assumptions=COMMON_ASSUMPTIONS + ["encodings are sampled; for each sampled encoding every cut point is enumerated (and every undefined flag at every block boundary in the thorough tier)", "arbitrary garbage is not thrown at the sketch decoders: the format lets a well-formed block describe 2^63 bins, which the property does not promise to handle gracefully"],
     ),
